@@ -73,7 +73,7 @@ def scenarios(ctx):
                     p["k_mid"] = False  # every execution runs into the known finding (24 virtual seconds of retries): quiescent placements only
                 if mode:
                     p["mode_after"] = [2, mode]  # in force once the first two records are accepted (metadata known, batches pending)
-                out.append((f"producer-{mname}-{bname}-{cname}", scen_producer.make, p, K if quick else KT))
+                out.append((f"producer-{mname}-{bname}-{cname}", scen_producer.make, p, KT if (not quick and cname == "healthy") else K))
     return out
 
 
